@@ -1,5 +1,5 @@
 (* Executable interface of the L0 model (slice.rs / buffer.rs). *)
-From A1 Require Import Bits.Copy.
+From A1 Require Import Bits.Copy Bits.Buffer.
 Local Open Scope Z_scope.
 
 Definition zs (l : list N) : list Z := map Z.of_N l.
@@ -20,77 +20,279 @@ Definition enc_unit_res {A} (f : A -> list Z) (r : res A) : list Z :=
   | Panic p => [2; Z.of_N p]
   end.
 
-(* BitBuffer / Bits op sequences: the answer accumulates one record per op *)
+(* BitBuffer / Bits op sequences: the answer accumulates one record per op.
+   Sub-ops on a BitBuffer (every public method of buffer.rs):
+     1 bit                  write_bit                 11 L(src)           write_bits
+     2 soff slen L(src)     write_bits_with_offset_len 12 len L(src)      write_bits_with_len
+     7 soff L(src)          write_bits_with_offset
+     3                      read_bit                  13 n fill           read_bits
+     4 doff dlen n fill     read_bits_with_offset_len 14 dlen n fill      read_bits_with_len
+                                                      15 doff n fill      read_bits_with_offset
+     5 pos bit              with_write_position_at(pos, write_bit(bit))   (legacy form)
+    16 clear   17 reset_read_position   18 n ensure_can_write_additional_bits   19 observe (byte_len, bit_len)
+    20 pos <sub-op>         with_write_position_at(pos, sub-op)
+    21 pos <sub-op>         with_read_position_at(pos, sub-op)
+    22 max <sub-op>         with_max_read(max, sub-op)
+    30                      Bits::from(&buffer): len, pos, remaining, is_empty, then read_bits_with_len of everything
+   Sub-ops on Bits: 3 4 13 14 15 as above, 8 p set_pos, 9 remaining, 10 l set_len,
+    21 pos <sub-op> with_read_position_at(pos, sub-op). *)
 Inductive carrier := CBuf (b : bitbuffer) | CBits (r : bitsrd).
 
-Definition last_byte (l : list N) : Z := Z.of_N (last l 0%N).
+Definition is_empty_z (r : bitsrd) : Z := zb (br_is_empty r).
 
+(* after every step: byte_len(), bit_len(), the read position, content() *)
 Definition state_rec (c : carrier) : list Z :=
   match c with
-  | CBuf b => [Z.of_nat (length (bb_buf b)); Z.of_N (bb_wpos b); Z.of_N (bb_rpos b); last_byte (bb_buf b)]
-  | CBits r => [Z.of_nat (length (br_slice r)); Z.of_N (br_len r); Z.of_N (br_pos r); 0]
+  | CBuf b => Z.of_N (bb_byte_len b) :: Z.of_N (bb_bit_len b) :: Z.of_N (bb_rpos b) :: zs (bb_content b)
+  | CBits r => [Z.of_nat (length (br_slice r)); Z.of_N (br_len r); Z.of_N (br_pos r); is_empty_z r]
   end.
 
+(* at the end: Into<Vec<u8>> *)
 Definition final_rec (c : carrier) : list Z :=
   match c with
-  | CBuf b => zs (bb_buf b)
+  | CBuf b => zs (bb_into_vec b)
   | CBits r => []
   end.
 
-(* one op: returns either the new carrier plus output ints, or a panic class *)
-Definition step (m : mode) (c : carrier) (op : Z) (a : list Z) : res (carrier * list Z) * list Z :=
-  match op, c, a with
-  | 1, CBuf b, bit :: rest =>
-      (match bb_write_bit m b (negb (bit =? 0)) with
-       | Ok (b', None) => Ok (CBuf b', [0]) | Ok (b', Some e) => Ok (CBuf b', [1; Z.of_N e])
-       | Err e => Ok (c, [1; Z.of_N e]) | Panic p => Panic p end, rest)
-  | 2, CBuf b, soff :: slen :: rest =>
-      let '(src, rest) := take_list rest in
-      (match bb_write_bits_ol m b (ns src) (Z.to_N soff) (Z.to_N slen) with
-       | Ok (b', None) => Ok (CBuf b', [0]) | Ok (b', Some e) => Ok (CBuf b', [1; Z.of_N e])
-       | Err e => Ok (c, [1; Z.of_N e]) | Panic p => Panic p end, rest)
-  | 7, CBuf b, soff :: rest =>
-      let '(src, rest) := take_list rest in
-      (match bb_write_bits_o m b (ns src) (Z.to_N soff) with
-       | Ok (b', None) => Ok (CBuf b', [0]) | Ok (b', Some e) => Ok (CBuf b', [1; Z.of_N e])
-       | Err e => Ok (c, [1; Z.of_N e]) | Panic p => Panic p end, rest)
-  | 3, CBuf b, rest =>
-      (match bb_read_bit b with
-       | Ok (bit, b') => Ok (CBuf b', [0; zb bit]) | Err e => Ok (c, [1; Z.of_N e]) | Panic p => Panic p end, rest)
-  | 3, CBits r, rest =>
-      (match br_read_bit r with
-       | Ok (bit, r') => Ok (CBits r', [0; zb bit]) | Err e => Ok (c, [1; Z.of_N e]) | Panic p => Panic p end, rest)
-  | 4, CBuf b, doff :: dlen :: n :: fill :: rest =>
-      (match bb_read_bits_ol m b (repeat (Z.to_N fill) (Z.to_nat n)) (Z.to_N doff) (Z.to_N dlen) with
-       | Ok (d, b') => Ok (CBuf b', 0 :: zs d) | Err e => Ok (c, [1; Z.of_N e]) | Panic p => Panic p end, rest)
-  | 4, CBits r, doff :: dlen :: n :: fill :: rest =>
-      (match br_read_bits_ol m r (repeat (Z.to_N fill) (Z.to_nat n)) (Z.to_N doff) (Z.to_N dlen) with
-       | Ok (d, r') => Ok (CBits r', 0 :: zs d) | Err e => Ok (c, [1; Z.of_N e]) | Panic p => Panic p end, rest)
-  | 5, CBuf b, pos :: bit :: rest =>
-      (match bb_patch_bit m b (Z.to_N pos) (negb (bit =? 0)) with
-       | Ok (b', None) => Ok (CBuf b', [0]) | Ok (b', Some e) => Ok (CBuf b', [1; Z.of_N e])
-       | Err e => Ok (c, [1; Z.of_N e]) | Panic p => Panic p end, rest)
-  | 8, CBits r, p :: rest => (Ok (CBits (br_set_pos r (Z.to_N p)), [0]), rest)
-  | 9, CBits r, rest =>
-      (match br_remaining m r with
-       | Ok n => Ok (c, [0; Z.of_N n]) | Err e => Ok (c, [1; Z.of_N e]) | Panic p => Panic p end, rest)
-  | 10, CBits r, l :: rest => (Ok (CBits (br_set_len r (Z.to_N l)), [0]), rest)
-  | _, _, _ => (Panic 99%N, [])
+Definition wr_out (b : bitbuffer) (r : res (bitbuffer * option N)) : res (bitbuffer * list Z) :=
+  match r with
+  | Ok (b', None) => Ok (b', [0])
+  | Ok (b', Some e) => Ok (b', [1; Z.of_N e])
+  | Err e => Ok (b, [1; Z.of_N e])
+  | Panic p => Panic p
   end.
 
+Definition rd_out {S} (s : S) (r : res (list N * S)) : res (S * list Z) :=
+  match r with
+  | Ok (d, s') => Ok (s', 0 :: zs d)
+  | Err e => Ok (s, [1; Z.of_N e])
+  | Panic p => Panic p
+  end.
+
+Definition bit_out {S} (s : S) (r : res (bool * S)) : res (S * list Z) :=
+  match r with
+  | Ok (bit, s') => Ok (s', [0; zb bit])
+  | Err e => Ok (s, [1; Z.of_N e])
+  | Panic p => Panic p
+  end.
+
+Definition mkdst (n fill : Z) : list N := repeat (Z.to_N fill) (Z.to_nat n).
+
+Definition bad {S} : res (S * list Z) * list Z := (Panic 99%N, []).
+
+(* a nested sub-op as the closure of a scoped combinator: its output and the unread
+   arguments travel out as the closure's result *)
+Definition as_closure {S} (r : res (S * list Z) * list Z) : res (S * (list Z * list Z)) :=
+  match r with
+  | (Ok (s, out), rest) => Ok (s, (out, rest))
+  | (Err e, _) => Err e
+  | (Panic p, _) => Panic p
+  end.
+Definition of_closure {S} (r : res (S * (list Z * list Z))) : res (S * list Z) * list Z :=
+  match r with
+  | Ok (s, (out, rest)) => (Ok (s, out), rest)
+  | Err e => (Err e, [])
+  | Panic p => (Panic p, [])
+  end.
+
+Definition bits_probe (m : mode) (b : bitbuffer) : res (list Z) :=
+  let r := br_from_buffer b in
+  let! rem := br_remaining m r in
+  let hd := [Z.of_N (br_len r); Z.of_N (br_pos r); Z.of_N rem; is_empty_z r] in
+  if (1048576 <? br_len r)%N then Ok (0 :: hd ++ [3]) else
+  match br_read_bits_with_len m r (repeat 0%N (N.to_nat ((br_len r + 7) / 8)%N)) (br_len r) with
+  | Ok (d, r') => Ok (0 :: hd ++ 0 :: Z.of_N (br_pos r') :: zs d)
+  | Err e => Ok (0 :: hd ++ [1; Z.of_N e])
+  | Panic p => Panic p
+  end.
+
+Fixpoint bstep (fuel : nat) (m : mode) (b : bitbuffer) (a : list Z) : res (bitbuffer * list Z) * list Z :=
+  match fuel with
+  | O => (Panic 98%N, [])
+  | S fu =>
+  match a with
+  | [] => bad
+  | op :: a =>
+    match op with
+    | 1 => match a with bit :: rest => (wr_out b (bb_write_bit m b (negb (bit =? 0))), rest) | _ => bad end
+    | 2 => match a with
+           | soff :: slen :: rest =>
+               let '(src, rest) := take_list rest in
+               (wr_out b (bb_write_bits_ol m b (ns src) (Z.to_N soff) (Z.to_N slen)), rest)
+           | _ => bad end
+    | 7 => match a with
+           | soff :: rest =>
+               let '(src, rest) := take_list rest in
+               (wr_out b (bb_write_bits_with_offset m b (ns src) (Z.to_N soff)), rest)
+           | _ => bad end
+    | 11 => let '(src, rest) := take_list a in (wr_out b (bb_write_bits m b (ns src)), rest)
+    | 12 => match a with
+            | len :: rest =>
+                let '(src, rest) := take_list rest in
+                (wr_out b (bb_write_bits_with_len m b (ns src) (Z.to_N len)), rest)
+            | _ => bad end
+    | 3 => (bit_out b (bb_read_bit b), a)
+    | 4 => match a with
+           | doff :: dlen :: n :: fill :: rest =>
+               (rd_out b (bb_read_bits_with_offset_len m b (mkdst n fill) (Z.to_N doff) (Z.to_N dlen)), rest)
+           | _ => bad end
+    | 13 => match a with
+            | n :: fill :: rest => (rd_out b (bb_read_bits m b (mkdst n fill)), rest)
+            | _ => bad end
+    | 14 => match a with
+            | dlen :: n :: fill :: rest => (rd_out b (bb_read_bits_with_len m b (mkdst n fill) (Z.to_N dlen)), rest)
+            | _ => bad end
+    | 15 => match a with
+            | doff :: n :: fill :: rest => (rd_out b (bb_read_bits_with_offset m b (mkdst n fill) (Z.to_N doff)), rest)
+            | _ => bad end
+    | 5 => match a with
+           | pos :: bit :: rest => (wr_out b (bb_patch_bit m b (Z.to_N pos) (negb (bit =? 0))), rest)
+           | _ => bad end
+    | 16 => (Ok (bb_clear b, [0]), a)
+    | 17 => (Ok (bb_reset_read_position b, [0]), a)
+    | 18 => match a with
+            | n :: rest =>
+                (match ensure_can_write m b (Z.to_N n) with
+                 | Ok b' => Ok (b', [0]) | Err e => Ok (b, [1; Z.of_N e]) | Panic p => Panic p end, rest)
+            | _ => bad end
+    | 19 => (Ok (b, [0; Z.of_N (bb_byte_len b); Z.of_N (bb_bit_len b)]), a)
+    | 20 => match a with
+            | pos :: rest =>
+                of_closure (bb_with_write_position_at m b (Z.to_N pos) (fun b1 => as_closure (bstep fu m b1 rest)))
+            | _ => bad end
+    | 21 => match a with
+            | pos :: rest =>
+                of_closure (bb_with_read_position_at m b (Z.to_N pos) (fun b1 => as_closure (bstep fu m b1 rest)))
+            | _ => bad end
+    | 22 => match a with
+            | mx :: rest =>
+                of_closure (bb_with_max_read m b (Z.to_N mx) (fun b1 => as_closure (bstep fu m b1 rest)))
+            | _ => bad end
+    | 30 => (match bits_probe m b with
+             | Ok out => Ok (b, out) | Err e => Ok (b, [1; Z.of_N e]) | Panic p => Panic p end, a)
+    | _ => bad
+    end
+  end
+  end.
+
+Fixpoint rstep (fuel : nat) (m : mode) (r : bitsrd) (a : list Z) : res (bitsrd * list Z) * list Z :=
+  match fuel with
+  | O => (Panic 98%N, [])
+  | S fu =>
+  match a with
+  | [] => bad
+  | op :: a =>
+    match op with
+    | 3 => (bit_out r (br_read_bit r), a)
+    | 4 => match a with
+           | doff :: dlen :: n :: fill :: rest =>
+               (rd_out r (br_read_bits_ol m r (mkdst n fill) (Z.to_N doff) (Z.to_N dlen)), rest)
+           | _ => bad end
+    | 13 => match a with
+            | n :: fill :: rest => (rd_out r (br_read_bits m r (mkdst n fill)), rest)
+            | _ => bad end
+    | 14 => match a with
+            | dlen :: n :: fill :: rest => (rd_out r (br_read_bits_with_len m r (mkdst n fill) (Z.to_N dlen)), rest)
+            | _ => bad end
+    | 15 => match a with
+            | doff :: n :: fill :: rest => (rd_out r (br_read_bits_with_offset m r (mkdst n fill) (Z.to_N doff)), rest)
+            | _ => bad end
+    | 8 => match a with
+           | p :: rest => let r' := br_set_pos r (Z.to_N p) in (Ok (r', [0; Z.of_N (br_pos r')]), rest)
+           | _ => bad end
+    | 9 => (match br_remaining m r with
+            | Ok n => Ok (r, [0; Z.of_N n]) | Err e => Ok (r, [1; Z.of_N e]) | Panic p => Panic p end, a)
+    | 10 => match a with
+            | l :: rest => let r' := br_set_len r (Z.to_N l) in (Ok (r', [0; Z.of_N (br_len r')]), rest)
+            | _ => bad end
+    | 21 => match a with
+            | pos :: rest =>
+                of_closure (br_with_read_position_at r (Z.to_N pos) (fun r1 => as_closure (rstep fu m r1 rest)))
+            | _ => bad end
+    | _ => bad
+    end
+  end
+  end.
+
+Definition step (m : mode) (c : carrier) (a : list Z) : res (carrier * list Z) * list Z :=
+  match c with
+  | CBuf b => match bstep (S (length a)) m b a with
+              | (Ok (b', out), rest) => (Ok (CBuf b', out), rest)
+              | (Err e, rest) => (Err e, rest) | (Panic p, rest) => (Panic p, rest) end
+  | CBits r => match rstep (S (length a)) m r a with
+               | (Ok (r', out), rest) => (Ok (CBits r', out), rest)
+               | (Err e, rest) => (Err e, rest) | (Panic p, rest) => (Panic p, rest) end
+  end.
+
+(* [acc] is kept reversed *)
 Fixpoint run_seq (fuel : nat) (m : mode) (c : carrier) (a : list Z) (acc : list Z) : list Z :=
   match fuel with
   | O => [-3]
   | S f =>
       match a with
-      | [] => 0 :: acc ++ final_rec c
-      | op :: rest =>
-          match step m c op rest with
-          | (Ok (c', out), rest') => run_seq f m c' rest' (acc ++ out ++ state_rec c')
+      | [] => 0 :: rev_append acc (final_rec c)
+      | _ =>
+          match step m c a with
+          | (Ok (c', out), rest') => run_seq f m c' rest' (rev_append (out ++ state_rec c') acc)
           | (Err e, _) => [1; Z.of_N e]
           | (Panic p, _) => [2; Z.of_N p]
           end
       end
+  end.
+
+(* a sequence starts with the record of the freshly constructed carrier *)
+Definition start_seq (m : mode) (c : res carrier) (ops : list Z) : list Z :=
+  match c with
+  | Ok c => run_seq (S (length ops)) m c ops (rev_append (state_rec c) [])
+  | Err e => [1; Z.of_N e]
+  | Panic p => [2; Z.of_N p]
+  end.
+
+Definition buf_res (r : res bitbuffer) : res carrier := let! b := r in Ok (CBuf b).
+Definition bits_res (r : res bitsrd) : res carrier := let! b := r in Ok (CBits b).
+
+(* BitBuffer constructors: 0 default, 1 cap with_capacity, 2 L from_bytes, 3 L bit_len from_bits,
+   4 L w r from_bits_with_position, 5 L From<Vec<u8>> *)
+Definition buf_ctor (a : list Z) : res carrier * list Z :=
+  match a with
+  | 0 :: rest => (Ok (CBuf bb_default), rest)
+  | 1 :: cap :: rest => (buf_res (bb_with_capacity (Z.to_N cap)), rest)
+  | 2 :: rest => let '(l, rest) := take_list rest in (buf_res (bb_from_bytes (ns l)), rest)
+  | 3 :: rest =>
+      let '(l, rest) := take_list rest in
+      match rest with
+      | bl :: rest => (buf_res (bb_from_bits (ns l) (Z.to_N bl)), rest)
+      | [] => (Panic 99%N, [])
+      end
+  | 4 :: rest =>
+      let '(l, rest) := take_list rest in
+      match rest with
+      | w :: r :: rest => (buf_res (bb_from_bits_with_position (ns l) (Z.to_N w) (Z.to_N r)), rest)
+      | _ => (Panic 99%N, [])
+      end
+  | 5 :: rest => let '(l, rest) := take_list rest in (buf_res (bb_from_bytes (ns l)), rest)
+  | _ => (Panic 99%N, [])
+  end.
+
+(* Bits constructors: 0 L From<&[u8]>, 1 L len From<(&[u8], usize)>,
+   2 L w r From<&BitBuffer> of from_bits_with_position(L, w, r) *)
+Definition bits_ctor (m : mode) (a : list Z) : res carrier * list Z :=
+  match a with
+  | 0 :: rest => let '(l, rest) := take_list rest in (Ok (CBits (br_from_slice (ns l))), rest)
+  | 1 :: rest =>
+      let '(l, rest) := take_list rest in
+      match rest with
+      | len :: rest => (bits_res (br_from_slice_len m (ns l) (Z.to_N len)), rest)
+      | [] => (Panic 99%N, [])
+      end
+  | 2 :: rest =>
+      let '(l, rest) := take_list rest in
+      match rest with
+      | w :: r :: rest =>
+          (bits_res (let! b := bb_from_bits_with_position (ns l) (Z.to_N w) (Z.to_N r) in Ok (br_from_buffer b)), rest)
+      | _ => (Panic 99%N, [])
+      end
+  | _ => (Panic 99%N, [])
   end.
 
 Definition run_bits (m : mode) (op : Z) (a : list Z) : list Z :=
@@ -109,9 +311,11 @@ Definition run_bits (m : mode) (op : Z) (a : list Z) : list Z :=
       enc_unit_res (fun '(d, p) => Z.of_N p :: zs d) (slice_write_bit (ns dst) (Z.to_N pos) (negb (bit =? 0)))
   | 1104, pos :: src =>
       enc_unit_res (fun '(b, p) => [Z.of_N p; zb b]) (slice_read_bit (ns src) (Z.to_N pos))
-  | 1110, a => run_seq (S (length a)) m (CBuf bb_empty) a []
+  | 1110, a => start_seq m (Ok (CBuf bb_default)) a
   | 1111, len :: rest =>
       let '(sl, ops) := take_list rest in
-      run_seq (S (length ops)) m (CBits {| br_slice := ns sl; br_pos := 0; br_len := Z.to_N len |}) ops []
+      start_seq m (Ok (CBits {| br_slice := ns sl; br_pos := 0; br_len := Z.to_N len |})) ops
+  | 1112, a => let '(c, ops) := buf_ctor a in start_seq m c ops
+  | 1113, a => let '(c, ops) := bits_ctor m a in start_seq m c ops
   | _, _ => [-1]
   end.
